@@ -130,6 +130,21 @@ def tlc_or_inconclusive(*a, **kw):
     return r
 
 
+def apalache_inductive(check, module, cinit=None, timeout=1800):
+    """Discharge Init => IndInv (length 0) and IndInv /\\ Next => IndInv' (length 1) of spec/<module>.tla with Apalache."""
+    wd = workdir("%s-apalache-%s" % (check.prop, module))
+    shutil.copyfile(os.path.join(SPEC, module + ".tla"), os.path.join(wd, module + ".tla"))
+    for init, length in (("Init", 0), ("IndInit", 1)):
+        cmd = ["apalache-mc", "check"] + (["--cinit=" + cinit] if cinit else []) + ["--init=" + init, "--inv=IndInv", "--length=%d" % length, module + ".tla"]
+        try:
+            p = subprocess.run(cmd, cwd=wd, stdout=subprocess.PIPE, stderr=subprocess.STDOUT, text=True, timeout=timeout)
+        except (OSError, subprocess.TimeoutExpired) as e:
+            raise Inconclusive("apalache-mc did not run: %s" % e)
+        if "EXITCODE: OK" not in p.stdout:
+            raise Inconclusive("%s.tla: IndInv is not inductive (%s, length %d) - specification bug\n%s" % (module, init, length, p.stdout[-1500:]))
+    shutil.rmtree(os.path.join(wd, "_apalache-out"), ignore_errors=True)
+
+
 def parallel(fn, items, jobs=None):
     jobs = jobs or max(1, min(len(items), NCPU // 2))
     with concurrent.futures.ThreadPoolExecutor(max_workers=jobs) as ex:
